@@ -116,7 +116,27 @@ func HarnessCallback() {
 		st.authReq = ar
 	}
 	vrtNominalSigAlg = false
+	// history: nothing | another session's completed callback | a (signed) metadata request
+	hist := 0
+	if vrtProp("C01") || vrtProp("C02") || vrtProp("C03") || vrtProp("C04") || vrtProp("C15") {
+		hist = vrtChoice("hist.kind", 3)
+	}
+	if hist != 0 {
+		// the earlier client is a nominal one: regular key material and algorithm
+		vrtAssume(vrtBool("idpkey.cert.valid"))
+		vrtAssume(vrtBool("idpkey.match"))
+		vrtNominalSigAlg = true
+	}
+	if hist == 2 {
+		// metadata is signed with a key pair of its own
+		vrtMetaSign = true
+		st.metaCert, st.metaKey = vrtIdPOtherKeyPair("metakey")
+		vrtAssume(vrtBool("metakey.cert.valid"))
+		vrtAssume(vrtBool("metakey.match"))
+		vrtAssume(string(st.metaCert) != string(st.respCert))
+	}
 	p := vrtNewProvider(st)
+	vrtEarlierRequest(p, st, hist)
 
 	rb := vrtNewRequest("req", vrtStr("req.method"), "/login")
 	vrtReqParam(rb, "id", vrtBool("req.id.q?"), vrtStr("req.id.q"), vrtBool("req.id.b?"), vrtStr("req.id.b"))
